@@ -3,7 +3,10 @@ CONSTANTS
   MaxD = 5
   MaxS = 4
   MaxMsgs = 1
+  NbSlots <- NoSlots
+  Outs <- AllOuts
+  RecvToggles = TRUE
   Mech = "repaired"
   Obs <- ObsEmit
-INVARIANTS FdFieldValidOrMinus1 OneOwnerPerDescriptor NoOrphanDescriptor AllDeletedMeansAllClosed
+INVARIANTS FdFieldValidOrMinus1 OneOwnerPerDescriptor NoOrphanDescriptor AllDeletedMeansAllClosed ModesOfOpenSocketsOnly
 CHECK_DEADLOCK FALSE
